@@ -572,7 +572,12 @@ fn exec_built(env: &mut Env, run: &mut Run, c: &Case, mut b: Built, emit: bool, 
         // ---- the property's oracle, on the implementation only
         let role = if c.controlling { "controlling" } else { "controlled" };
         let is_req = matches!(p.what, What::Req { .. } | What::Raw { .. });
-        if let (true, Some(false), false) = (is_req, authentic, c.webrtc) { run.count("unauthenticated_request_in_rtp_mode_not_judged"); }
+        if let (true, Some(false), false) = (is_req, authentic, c.webrtc) {
+            // outside WebRTC mode unauthenticated probes are answered and learnt from by design, but since the fix "a STUN nomination
+            // (USE-CANDIDATE) is honoured only when … in every transport mode" they never nominate (accepted TCP stream excepted)
+            if p.sock != Sk::Tcp && (after.nom != before.nom || after.state != before.state) {
+                run.fail(&format!("unauth:any-mode:{role}:{}", if after.nom != before.nom { "nomination-completed" } else { "state-changed" }), &c.text(), &format!("{} -> {}", before.text(), after.text())); }
+            run.count("unauthenticated_request_in_rtp_mode_judged_for_nomination_only"); }
         if let (true, Some(false), true) = (is_req, authentic, c.webrtc) {
             if after.selsock != before.selsock { let vv: String = match &p.what { What::Req { user, mi, .. } => variant(*user, *mi).to_string(), What::Raw { layout, .. } => format!("malformed-{}", LAYOUTS[*layout as usize].0), _ => unreachable!() };
                 run.fail(&format!("unauth:{vv}:{role}:selected-socket-changed"), &c.text(), &format!("{} -> {}", before.text(), after.text())); }
